@@ -33,3 +33,16 @@ Theorem C11_aggregated_iter_length : forall vecs n m, Forall (fun v => (n <= Lis
   List.length (aggregated vecs n m) = (m * n)%nat.
 Proof. exact aggregated_length. Qed.
 Print Assumptions C11_aggregated_iter_length.
+
+(** THE "DISTINCT, NON-IDENTITY" HALF AS A THEOREM on the derivation: all 4103 generator encodings of the largest parameter set
+    (64 bits x 32 parties, six blinding generators, the value generator) that Model/Gens.v derives — SHAKE256 chains and SHA3-512
+    labels through the Ristretto one-way map, computed by the Gallina implementations of Crypto/ — are pairwise distinct and none is
+    the identity encoding.  Finite domain, proved by computation (Crypto/GenTab*.v evaluate each chain once against the
+    implementation's bytes; the quadratic comparison runs on those literals); every smaller parameter set is a prefix view
+    (C11_chain_prefix, checked on the implementation at run time).  The tie to the code is the byte equality the check re-establishes
+    on every run. *)
+From BP Require Import Proofs.GensDistinctP.
+Theorem C11_generators_distinct :
+  NoDup all_generators /\ Forall (fun p => p <> 0) all_generators /\ List.length all_generators = 4103%nat.
+Proof. exact generators_distinct. Qed.
+Print Assumptions C11_generators_distinct.
